@@ -178,6 +178,12 @@ def r3_ownership_predicate(ctx):
         if isinstance(v, ast.Constant) and v.value is False and not is_def:
             false_rets.append(sn)   # a final `return False`: legitimate once the sufficient tests have failed (checked below)
             continue
+        if isinstance(v, ast.Constant) and v.value is False and is_def:
+            # a False that no True can flow into overwrites nothing: it is the verdict of "every sufficient test failed", like a final `return False`
+            trues = [d.node for d in rd.defs_of(flag) if isinstance(d.value, ast.Constant) and d.value.value is True]
+            if not any(graph.path(t.nsucc(), lambda x, sn=sn: x is sn, efilter=graph.normal_only) is not None for t in trues):
+                false_rets.append(sn)
+                continue
         ok = isinstance(v, ast.Constant) and v.value is True
         n_true += 1 if ok else 0
         rep.ob('C16.R3', ctx.loc(f, sn.ast), ctx.src(sn.ast), ok,
